@@ -494,3 +494,373 @@ Definition f09_history : list event := [ERtmpPub 1 1 false; EPsPub 1 2].
 Lemma single_input_refuted_pinned :
   exists cf h s g, get_group (fst (run pinned_tree cf init_state h)) s = Some g /\ occupied g = 2%nat.
 Proof. exists (mk_config false 0), f09_history, 1. eexists. split; [vm_compute; reflexivity|reflexivity]. Qed.
+
+(* ---- events about a session that is not the accepted input ------------------------------------ *)
+Inductive subject := SConn (n : N) | SAtt (s i : N).
+
+Definition subject_of (e : event) : option subject :=
+  match e with
+  | ERtmpPub _ n _ | ERtmpSub _ n _ | ERtspPub _ n _ | ERtspSub _ n _ | ERtspPlay n
+  | EFlvSub _ n _ | ETsSub _ n _ | ECustPub _ n | EPsPub _ n | EGone n | EMedia n => Some (SConn n)
+  | EKick _ (KConn n) => Some (SConn n)
+  | EKick _ (KAtt s i) => Some (SAtt s i)
+  | EPullSucc s i | EPullFail s i | EPullDone s i => Some (SAtt s i)
+  | _ => None
+  end.
+
+(* x is the accepted input of group g of stream s *)
+Definition occupies (x : subject) (s : N) (g : group) : bool :=
+  match x with
+  | SConn n => opt_is (g_rtmp g) n || opt_is (g_rtsp g) n || opt_is (g_cust g) n || opt_is (g_ps g) n
+  | SAtt s' i => N.eqb s' s && (opt_is (pp_rtmp (g_pp g)) i || opt_is (pp_rtsp (g_pp g)) i)
+  end.
+
+(* the input side of a group: slots, per-input pipeline, identity of the Group object *)
+Definition sim (g g' : group) : Prop := slots g' = slots g /\ g_pipe g' = g_pipe g /\ g_id g' = g_id g.
+Definition keeps (s : N) (g : group) (st' : state) : Prop := exists g', get_group st' s = Some g' /\ sim g g'.
+
+Lemma sim_refl : forall g, sim g g.
+Proof. intros; repeat split. Qed.
+Lemma sim_trans : forall a b c, sim a b -> sim b c -> sim a c.
+Proof. unfold sim. intros a b c [H1 [H2 H3]] [H4 [H5 H6]]. repeat split; congruence. Qed.
+
+Lemma keeps_here : forall s g st, get_group st s = Some g -> keeps s g st.
+Proof. intros. exists g. split; [assumption|apply sim_refl]. Qed.
+Lemma keeps_same : forall s g st st', st_groups st' = st_groups st -> keeps s g st -> keeps s g st'.
+Proof. unfold keeps, get_group. intros s g st st' E H. rewrite E. exact H. Qed.
+Lemma keeps_put_other : forall s s' g g2 st, s <> s' -> keeps s g st -> keeps s g (put_group st s' g2).
+Proof.
+  unfold keeps, get_group, put_group. intros s s' g g2 st Hne [g' [H1 H2]]. exists g'. split; [|assumption].
+  simpl. rewrite lookup_update_other; assumption.
+Qed.
+Lemma keeps_put_same : forall s g g2 st, sim g g2 -> keeps s g (put_group st s g2).
+Proof.
+  unfold keeps, get_group, put_group. intros s g g2 st H. exists g2. split; [|assumption].
+  simpl. apply lookup_update_same.
+Qed.
+
+Lemma get_or_create_found : forall cf st s g, get_group st s = Some g -> get_or_create cf st s = (st, g).
+Proof. intros cf st s g H. unfold get_or_create. rewrite H. reflexivity. Qed.
+
+Lemma keeps_get_or_create : forall cf st s s' g st1 g1,
+  keeps s g st -> get_or_create cf st s' = (st1, g1) ->
+  keeps s g st1 /\ (s' = s -> sim g g1) /\ get_group st1 s' = Some g1.
+Proof.
+  intros cf st s s' g st1 g1 Hk E. unfold get_or_create in E.
+  destruct (get_group st s') as [g0|] eqn:Eg.
+  - inversion E; subst. split; [assumption|]. split; [|assumption].
+    intros ->. destruct Hk as [g' [H1 H2]]. rewrite H1 in Eg. inversion Eg; subst. assumption.
+  - inversion E; subst. split; [|split].
+    + apply keeps_same with (st := put_group st s' (new_group cf (st_gid st + 1) (st_now st))); [reflexivity|].
+      apply keeps_put_other; [|assumption].
+      intros ->. destruct Hk as [g' [H1 _]]. rewrite H1 in Eg. discriminate.
+    + intros ->. destruct Hk as [g' [H1 _]]. rewrite H1 in Eg. discriminate.
+    + unfold get_group. simpl. apply lookup_update_same.
+Qed.
+
+Lemma sim_has_in : forall g g', sim g g' -> has_in g' = has_in g.
+Proof.
+  unfold sim, slots, has_in, has_pub, has_pull. intros g g' [H _]. inversion H. reflexivity.
+Qed.
+
+Lemma pull_if_needed_busy : forall g now, has_in g = true -> pull_if_needed g now = (g, false, RsDup).
+Proof. intros g now H. unfold pull_if_needed, should_start. rewrite H. reflexivity. Qed.
+
+Lemma pull_if_needed_st_busy : forall st s g, has_in g = true -> pull_if_needed_st st s g = (st, g, None, RsDup).
+Proof. intros st s g H. unfold pull_if_needed_st. rewrite (pull_if_needed_busy _ _ H). reflexivity. Qed.
+
+Lemma occupies_conn_slot : forall n s g sl, occupies (SConn n) s g = false -> opt_is (get_slot g sl) n = false.
+Proof.
+  unfold occupies. intros n s g sl H.
+  apply orb_false_iff in H. destruct H as [H H4]. apply orb_false_iff in H. destruct H as [H H3].
+  apply orb_false_iff in H. destruct H as [H1 H2]. destruct sl; assumption.
+Qed.
+
+Lemma sim_pull_del_foreign : forall fx g i, fx_f10 fx = true ->
+  opt_is (pp_rtmp (g_pp g)) i || opt_is (pp_rtsp (g_pp g)) i = false -> sim g (pull_del fx g i).
+Proof. intros fx g i H10 H. unfold pull_del. rewrite H10, H. repeat split. Qed.
+
+Section Foreign.
+Variable fx : fixes.
+Hypothesis H9 : fx_f09 fx = true.
+Hypothesis H10 : fx_f10 fx = true.
+
+Lemma foreign_admit_pub : forall cf st sl s' n check st1 ok g1 s g,
+  (check = true \/ fx_f09 fx = true /\ check = fx_f09 fx) ->
+  get_group st s = Some g -> has_in g = true ->
+  admit_pub cf st sl s' n check = (st1, ok, g1) -> keeps s g st1 /\ (s' = s -> ok = false).
+Proof.
+  intros cf st sl s' n check st1 ok g1 s g Hc Hg Hin E.
+  assert (Hcheck : check = true) by (destruct Hc as [?|[? ?]]; congruence).
+  subst check. unfold admit_pub in E.
+  destruct (get_or_create cf st s') as [st0 g0] eqn:Eg.
+  destruct (keeps_get_or_create _ _ _ _ _ _ _ (keeps_here _ _ _ Hg) Eg) as [Hk [Hs Hg0]].
+  destruct (N.eq_dec s' s) as [->|Hne].
+  - rewrite (sim_has_in _ _ (Hs eq_refl)), Hin in E. simpl in E. inversion E; subst. split; [assumption|reflexivity].
+  - split; [|intros; contradiction].
+    destruct (true && has_in g0).
+    + inversion E; subst. assumption.
+    + unfold next_pipe in E. inversion E; subst.
+      apply keeps_put_other; [congruence|]. eapply keeps_same; [|exact Hk]. reflexivity.
+Qed.
+
+Lemma foreign_admit_sub : forall cf st k s' n pull st1 g1 s g,
+  get_group st s = Some g -> has_in g = true ->
+  admit_sub cf st k s' n pull = Some (st1, g1) -> keeps s g st1.
+Proof.
+  intros cf st k s' n pull st1 g1 s g Hg Hin E. unfold admit_sub in E.
+  destruct (get_or_create cf st s') as [st0 g0] eqn:Eg.
+  destruct (keeps_get_or_create _ _ _ _ _ _ _ (keeps_here _ _ _ Hg) Eg) as [Hk [Hs Hg0]].
+  destruct (g_disposed g0); [discriminate|].
+  destruct (N.eq_dec s' s) as [->|Hne].
+  - assert (Hb : has_in (g_set_subs g0 (g_subs g0 ++ [(k, n)])) = true)
+      by (rewrite <- Hin, <- (sim_has_in _ _ (Hs eq_refl)); reflexivity).
+    destruct pull.
+    + rewrite (pull_if_needed_st_busy _ _ _ Hb) in E. inversion E; subst.
+      apply keeps_put_same. destruct (Hs eq_refl) as [A [B C]]. repeat split; assumption.
+    + inversion E; subst. apply keeps_put_same. destruct (Hs eq_refl) as [A [B C]]. repeat split; assumption.
+  - destruct pull.
+    + destruct (pull_if_needed_st st0 s' _) as [[[st2 g2] o] r] eqn:Ep.
+      inversion E; subst. apply keeps_put_other; [congruence|].
+      unfold pull_if_needed_st in Ep. destruct (pull_if_needed _ _) as [[g3 started] r3].
+      destruct started; [unfold alloc_att in Ep|]; inversion Ep; subst; [eapply keeps_same; [|exact Hk]; reflexivity|assumption].
+    + inversion E; subst. apply keeps_put_other; [congruence|assumption].
+Qed.
+
+Lemma foreign_depart_pub : forall st sl s' n b s g,
+  get_group st s = Some g -> occupies (SConn n) s g = false ->
+  keeps s g (fst (depart_pub st sl s' n b)).
+Proof.
+  intros st sl s' n b s g Hg Ho. unfold depart_pub.
+  destruct (get_group st s') as [g0|] eqn:Eg; [|apply keeps_here; assumption]. simpl.
+  destruct (N.eq_dec s' s) as [->|Hne].
+  - rewrite Hg in Eg. inversion Eg; subst g0. rewrite (occupies_conn_slot _ _ _ sl Ho).
+    apply keeps_put_same. apply sim_refl.
+  - apply keeps_put_other; [congruence|apply keeps_here; assumption].
+Qed.
+
+Lemma foreign_depart_sub : forall st k s' n s g,
+  get_group st s = Some g -> keeps s g (fst (depart_sub st k s' n)).
+Proof.
+  intros st k s' n s g Hg. unfold depart_sub.
+  destruct (get_group st s') as [g0|] eqn:Eg; [|apply keeps_here; assumption]. simpl.
+  destruct (N.eq_dec s' s) as [->|Hne].
+  - rewrite Hg in Eg. inversion Eg; subst g0. apply keeps_put_same. repeat split.
+  - apply keeps_put_other; [congruence|apply keeps_here; assumption].
+Qed.
+
+Lemma keeps_finish_att : forall s g st s' a, keeps s g st -> keeps s g (finish_att st s' a).
+Proof. intros s g st s' a H. destruct a; simpl; [eapply keeps_same; [|exact H]; reflexivity|assumption]. Qed.
+
+Lemma foreign_kick : forall st s' g0 t x s g,
+  get_group st s' = Some g0 -> get_group st s = Some g ->
+  subject_of (EKick s' t) = Some x -> occupies x s g = false ->
+  keeps s g (fst (fst (kick_group fx st s' g0 t))).
+Proof.
+  intros st s' g0 t x s g Hg0 Hg Hx Ho. unfold kick_group.
+  destruct (N.eq_dec s' s) as [->|Hne].
+  - rewrite Hg in Hg0. inversion Hg0; subst g0. destruct t as [n|s'' i]; simpl in Hx; inversion Hx; subst x.
+    + destruct (find_sess n (st_sess st)) as [y|]; [|apply keeps_here; assumption].
+      pose proof (occupies_conn_slot _ _ _ PsPs Ho) as Hps. simpl in Hps.
+      destruct (s_kind y); simpl; try (apply keeps_here; assumption);
+        try (match goal with |- context[if ?c then _ else _] => destruct c end; simpl;
+             [eapply keeps_same; [|apply keeps_here; exact Hg]; reflexivity|apply keeps_here; assumption]).
+      rewrite Hps. apply keeps_here; assumption.
+    + simpl in Ho. rewrite Ho. apply keeps_here; assumption.
+  - destruct t as [n|s'' i].
+    + destruct (find_sess n (st_sess st)) as [y|]; [|apply keeps_here; assumption].
+      destruct (s_kind y); simpl; try (apply keeps_here; assumption);
+        match goal with |- context[if ?c then _ else _] => destruct c end; simpl;
+        try (apply keeps_here; assumption);
+        try (eapply keeps_same; [|apply keeps_here; exact Hg]; reflexivity).
+      apply keeps_put_other; [congruence|]. eapply keeps_same; [|apply keeps_here; exact Hg]. reflexivity.
+    + destruct (_ && _); [|apply keeps_here; assumption].
+      destruct (stop_and_del _ _ _) as [[g1 a] ns]. simpl.
+      apply keeps_finish_att. apply keeps_put_other; [congruence|apply keeps_here; assumption].
+Qed.
+
+Theorem foreign_event_step : forall cf st e x s g,
+  subject_of e = Some x -> get_group st s = Some g -> has_in g = true -> occupies x s g = false ->
+  keeps s g (fst (fst (step fx cf st e))).
+Proof.
+  intros cf st e x s g Hx Hg Hin Ho.
+  destruct e; simpl in Hx; try discriminate Hx; simpl.
+  - (* ERtmpPub *)
+    destruct (fresh st n); simpl; [|apply keeps_here; assumption].
+    destruct deny; simpl; [eapply keeps_same; [|apply keeps_here; exact Hg]; reflexivity|].
+    destruct (admit_pub cf st PsRtmp s0 n true) as [[st1 ok] g1] eqn:E.
+    destruct (foreign_admit_pub _ _ _ _ _ _ _ _ _ _ _ (or_introl eq_refl) Hg Hin E) as [Hk _].
+    destruct ok; simpl; (eapply keeps_same; [|exact Hk]); reflexivity.
+  - (* ERtmpSub *)
+    destruct (fresh st n); simpl; [|apply keeps_here; assumption].
+    destruct deny; simpl; [eapply keeps_same; [|apply keeps_here; exact Hg]; reflexivity|].
+    destruct (admit_sub cf st SkRtmp s0 n true) as [[st1 g1]|] eqn:E; simpl; [|apply keeps_here; assumption].
+    eapply keeps_same; [|exact (foreign_admit_sub _ _ _ _ _ _ _ _ _ _ Hg Hin E)]. reflexivity.
+  - (* ERtspPub *)
+    destruct (fresh st n); simpl; [|apply keeps_here; assumption].
+    destruct deny; simpl; [eapply keeps_same; [|apply keeps_here; exact Hg]; reflexivity|].
+    destruct (admit_pub cf st PsRtsp s0 n true) as [[st1 ok] g1] eqn:E.
+    destruct (foreign_admit_pub _ _ _ _ _ _ _ _ _ _ _ (or_introl eq_refl) Hg Hin E) as [Hk _].
+    destruct ok; simpl; (eapply keeps_same; [|exact Hk]); reflexivity.
+  - (* ERtspSub *)
+    destruct (fresh st n); simpl; [|apply keeps_here; assumption].
+    destruct deny; simpl; [eapply keeps_same; [|apply keeps_here; exact Hg]; reflexivity|].
+    destruct (admit_sub cf st SkRtsp s0 n false) as [[st1 g1]|] eqn:E; simpl; [|apply keeps_here; assumption].
+    eapply keeps_same; [|exact (foreign_admit_sub _ _ _ _ _ _ _ _ _ _ Hg Hin E)]. reflexivity.
+  - (* ERtspPlay *)
+    destruct (find_sess n (st_sess st)) as [y|]; simpl; [|apply keeps_here; assumption].
+    destruct (s_kind y); simpl; try (apply keeps_here; assumption).
+    destruct (s_gone y || s_closed y); simpl; [apply keeps_here; assumption|].
+    destruct (get_or_create cf st (s_stream y)) as [st1 g1] eqn:Eg.
+    destruct (keeps_get_or_create _ _ _ _ _ _ _ (keeps_here _ _ _ Hg) Eg) as [Hk [Hs Hg1]].
+    destruct (N.eq_dec (s_stream y) s) as [Heq|Hne].
+    + rewrite Heq in *. assert (Hb : has_in g1 = true) by (rewrite (sim_has_in _ _ (Hs eq_refl)); assumption).
+      rewrite (pull_if_needed_st_busy _ _ _ Hb). simpl. apply keeps_put_same. apply Hs. reflexivity.
+    + destruct (pull_if_needed_st st1 (s_stream y) g1) as [[[st2 g2] o] r] eqn:Ep. simpl.
+      apply keeps_put_other; [congruence|].
+      unfold pull_if_needed_st in Ep. destruct (pull_if_needed _ _) as [[g3 started] r3].
+      destruct started; [unfold alloc_att in Ep|]; inversion Ep; subst; [eapply keeps_same; [|exact Hk]; reflexivity|assumption].
+  - (* EFlvSub *)
+    destruct (fresh st n); simpl; [|apply keeps_here; assumption].
+    destruct deny; simpl; [eapply keeps_same; [|apply keeps_here; exact Hg]; reflexivity|].
+    destruct (admit_sub cf st SkFlv s0 n true) as [[st1 g1]|] eqn:E; simpl; [|apply keeps_here; assumption].
+    eapply keeps_same; [|exact (foreign_admit_sub _ _ _ _ _ _ _ _ _ _ Hg Hin E)]. reflexivity.
+  - (* ETsSub *)
+    destruct (fresh st n); simpl; [|apply keeps_here; assumption].
+    destruct deny; simpl; [eapply keeps_same; [|apply keeps_here; exact Hg]; reflexivity|].
+    destruct (admit_sub cf st SkTs s0 n true) as [[st1 g1]|] eqn:E; simpl; [|apply keeps_here; assumption].
+    eapply keeps_same; [|exact (foreign_admit_sub _ _ _ _ _ _ _ _ _ _ Hg Hin E)]. reflexivity.
+  - (* ECustPub *)
+    destruct (fresh st n); simpl; [|apply keeps_here; assumption].
+    destruct (admit_pub cf st PsCust s0 n true) as [[st1 ok] g1] eqn:E.
+    destruct (foreign_admit_pub _ _ _ _ _ _ _ _ _ _ _ (or_introl eq_refl) Hg Hin E) as [Hk _].
+    destruct ok; simpl; (eapply keeps_same; [|exact Hk]); reflexivity.
+  - (* EPsPub *)
+    destruct (fresh st n); simpl; [|apply keeps_here; assumption].
+    destruct (admit_pub cf st PsPs s0 n (fx_f09 fx)) as [[st1 ok] g1] eqn:E.
+    destruct (foreign_admit_pub _ _ _ _ _ _ _ _ _ _ _ (or_intror (conj H9 eq_refl)) Hg Hin E) as [Hk _].
+    destruct ok; simpl; (eapply keeps_same; [|exact Hk]); reflexivity.
+  - (* EGone *)
+    inversion Hx; subst x.
+    destruct (find_sess n (st_sess st)) as [y|]; simpl; [|apply keeps_here; assumption].
+    destruct (s_gone y); simpl; [apply keeps_here; assumption|].
+    destruct (s_kind y); simpl; try (apply keeps_here; assumption);
+    match goal with
+    | |- context[depart_pub ?a ?b ?c ?d ?e] =>
+        pose proof (foreign_depart_pub a b c d e s g) as Hd; destruct (depart_pub a b c d e) as [st1 ns]; simpl in *; apply Hd
+    | |- context[depart_sub ?a ?b ?c ?d] =>
+        pose proof (foreign_depart_sub a b c d s g) as Hd; destruct (depart_sub a b c d) as [st1 ns]; simpl in *; apply Hd
+    end; try assumption.
+    destruct (fx_f26 fx && _); assumption.
+  - (* EKick *)
+    destruct (get_group st s0) as [g0|] eqn:Eg0; simpl; [|apply keeps_here; assumption].
+    pose proof (foreign_kick st s0 g0 t x s g Eg0 Hg Hx Ho) as Hk.
+    destruct (kick_group fx st s0 g0 t) as [[st1 ok] ns]. simpl in *. exact Hk.
+  - (* EPullSucc *)
+    inversion Hx; subst x.
+    destruct (find_att s0 i (st_atts st)) as [a|]; simpl; [|apply keeps_here; assumption].
+    destruct (get_group st s0) as [g0|] eqn:Eg0; simpl; [|apply keeps_here; assumption].
+    destruct (a_state a); simpl; try (apply keeps_here; assumption).
+    destruct (N.eq_dec s0 s) as [->|Hne].
+    + rewrite Hg in Eg0. inversion Eg0; subst g0. rewrite Hin. simpl.
+      eapply keeps_same with (st := put_group st s _); [reflexivity|].
+      apply keeps_put_same. apply sim_pull_del_foreign; [assumption|].
+      simpl in Ho. rewrite N.eqb_refl in Ho. exact Ho.
+    + destruct (has_in g0 || _); simpl.
+      * eapply keeps_same with (st := put_group st s0 _); [reflexivity|].
+        apply keeps_put_other; [congruence|apply keeps_here; assumption].
+      * eapply keeps_same with (st := put_group (st_set_pipe st (st_pipe st + 1)) s0 _); [reflexivity|].
+        apply keeps_put_other; [congruence|]. eapply keeps_same; [|apply keeps_here; exact Hg]. reflexivity.
+  - (* EPullFail *)
+    inversion Hx; subst x.
+    destruct (find_att s0 i (st_atts st)) as [a|]; simpl; [|apply keeps_here; assumption].
+    destruct (get_group st s0) as [g0|] eqn:Eg0; simpl; [|apply keeps_here; assumption].
+    destruct (a_state a); simpl; try (apply keeps_here; assumption).
+    eapply keeps_same with (st := put_group st s0 _); [reflexivity|].
+    destruct (N.eq_dec s0 s) as [->|Hne].
+    + rewrite Hg in Eg0. inversion Eg0; subst g0.
+      apply keeps_put_same. apply sim_pull_del_foreign; [assumption|].
+      simpl in Ho. rewrite N.eqb_refl in Ho. exact Ho.
+    + apply keeps_put_other; [congruence|apply keeps_here; assumption].
+  - (* EPullDone *)
+    inversion Hx; subst x.
+    destruct (find_att s0 i (st_atts st)) as [a|]; simpl; [|apply keeps_here; assumption].
+    destruct (get_group st s0) as [g0|] eqn:Eg0; simpl; [|apply keeps_here; assumption].
+    destruct (a_state a); simpl; try (apply keeps_here; assumption).
+    eapply keeps_same with (st := put_group st s0 _); [reflexivity|].
+    destruct (N.eq_dec s0 s) as [->|Hne].
+    + rewrite Hg in Eg0. inversion Eg0; subst g0.
+      apply keeps_put_same. apply sim_pull_del_foreign; [assumption|].
+      simpl in Ho. rewrite N.eqb_refl in Ho. exact Ho.
+    + apply keeps_put_other; [congruence|apply keeps_here; assumption].
+  - (* EMedia *)
+    destruct (find_sess n (st_sess st)) as [y|]; simpl; [|apply keeps_here; assumption].
+    destruct (s_kind y); simpl; try (apply keeps_here; assumption);
+    match goal with |- context[if ?c then _ else _] => destruct c end; apply keeps_here; assumption.
+Qed.
+End Foreign.
+
+(* F-10 on the pinned tree: the failure of a pull that never attached tears down the publisher *)
+Definition f10_prefix : list event := [EStartPull 1 0 (-1) true; ERtmpPub 1 1 false].
+Lemma foreign_event_refuted_pinned :
+  exists cf st e x s g,
+    reachable pinned_tree cf st /\ subject_of e = Some x /\ get_group st s = Some g /\ has_in g = true /\
+    occupies x s g = false /\ ~ keeps s g (fst (fst (step pinned_tree cf st e))).
+Proof.
+  exists (mk_config false 0), (fst (run pinned_tree (mk_config false 0) init_state f10_prefix)),
+         (EPullFail 1 1), (SAtt 1 1), 1.
+  eexists. split; [apply run_reachable; constructor|].
+  split; [reflexivity|]. split; [vm_compute; reflexivity|]. split; [reflexivity|]. split; [reflexivity|].
+  intros [g' [H1 [H2 _]]]. vm_compute in H1. inversion H1; subst g'. vm_compute in H2. discriminate H2.
+Qed.
+
+(* ---- an input that arrives while another is accepted is refused -------------------------------- *)
+Definition arrival_stream (e : event) : option N :=
+  match e with
+  | ERtmpPub s _ _ | ERtspPub s _ _ | ECustPub s _ | EPsPub s _ | EStartPull s _ _ _ | EPullSucc s _ => Some s
+  | _ => None
+  end.
+
+Definition refusal (e : event) (r : result) : Prop :=
+  match e with
+  | ERtmpPub _ _ _ | ERtspPub _ _ _ | ECustPub _ _ => r = RRef \/ r = RBad
+  | EPsPub _ _ => r = RCode code_start_rtp_pub_fail RsDup None \/ r = RBad
+  | EStartPull _ _ _ _ => r = RCode code_start_pull_fail RsDup None
+  | EPullSucc _ _ => r = RNone \/ r = RBad
+  | _ => False
+  end.
+
+Lemma admit_pub_busy : forall cf st sl s n g, get_group st s = Some g -> has_in g = true ->
+  admit_pub cf st sl s n true = (st, false, g).
+Proof.
+  intros cf st sl s n g Hg Hin. unfold admit_pub. rewrite (get_or_create_found _ _ _ _ Hg), Hin. reflexivity.
+Qed.
+
+Theorem refuse_when_busy : forall fx cf st e s g,
+  fx_f09 fx = true -> fx_f10 fx = true ->
+  arrival_stream e = Some s -> get_group st s = Some g -> has_in g = true ->
+  (forall x, subject_of e = Some x -> occupies x s g = false) ->
+  refusal e (snd (fst (step fx cf st e))) /\ keeps s g (fst (fst (step fx cf st e))).
+Proof.
+  intros fx cf st e s g H9 H10 Ha Hg Hin Ho. split.
+  - destruct e; simpl in Ha; try discriminate Ha; inversion Ha; subst; simpl.
+    + destruct (fresh st n); simpl; [|right; reflexivity]. destruct deny; simpl; [left; reflexivity|].
+      rewrite (admit_pub_busy _ _ _ _ _ _ Hg Hin). left; reflexivity.
+    + destruct (fresh st n); simpl; [|right; reflexivity]. destruct deny; simpl; [left; reflexivity|].
+      rewrite (admit_pub_busy _ _ _ _ _ _ Hg Hin). left; reflexivity.
+    + destruct (fresh st n); simpl; [|right; reflexivity].
+      rewrite (admit_pub_busy _ _ _ _ _ _ Hg Hin). left; reflexivity.
+    + destruct (fresh st n); simpl; [|right; reflexivity].
+      rewrite H9. rewrite (admit_pub_busy _ _ _ _ _ _ Hg Hin). left; reflexivity.
+    + rewrite (get_or_create_found _ _ _ _ Hg).
+      rewrite (pull_if_needed_st_busy st s (g_set_pp g (pp_set_req (g_pp g) rtmp retry autostop)) Hin). reflexivity.
+    + destruct (find_att s i (st_atts st)) as [a|]; simpl; [|right; reflexivity].
+      rewrite Hg. destruct (a_state a); simpl; try (right; reflexivity).
+      rewrite Hin. left; reflexivity.
+  - destruct (subject_of e) as [x|] eqn:Ex.
+    + eapply foreign_event_step; eauto.
+    + destruct e; simpl in Ha; try discriminate Ha; simpl in Ex; try discriminate Ex. inversion Ha; subst. simpl.
+      rewrite (get_or_create_found _ _ _ _ Hg).
+      rewrite (pull_if_needed_st_busy st s (g_set_pp g (pp_set_req (g_pp g) rtmp retry autostop)) Hin). simpl.
+      apply keeps_put_same. repeat split.
+Qed.
